@@ -3,7 +3,7 @@
     The values themselves (floats produced by sin/cos/atan2) are NOT modelled: a register holds an abstract
     value and an operation may replace the value of exactly those registers that the mutation census of
     math.py (Gen/AngleSites_gen.v, [mut_events]) allows the called method to write.  Definitions only. *)
-From Coq Require Import List String Bool Arith.
+From Coq Require Import List String Ascii Bool Arith.
 Import ListNotations.
 Open Scope string_scope.
 
@@ -27,9 +27,15 @@ Definition base_of (c : string) : string :=
 (** classes whose methods can run with a frozen receiver *)
 Definition frozen_reachable (c : string) : bool :=
   frozen_class c || (c =? "VecBase") || (c =? "AngleBase") || (c =? "MatrixBase").
-(** private helpers that write their receiver/argument by design; they are not operations of the public
-    API and every call of them is itself an event of the calling method in the census *)
-Definition helper (m : string) : bool := (m =? "_mat_mul") || (m =? "_vec_rot") || (m =? "_to_angle").
+(** private helpers (a single leading underscore: `_mat_mul`, `_vec_rot`, `_to_angle`, whatever they are called
+    today) may write their receiver/argument by design; they are not operations of the public API, and every call of
+    one that writes is itself an event of the calling method in the census (the translator derives the set of writing
+    methods from the source on every run) *)
+Definition helper (m : string) : bool :=
+  match m with
+  | String c1 (String c2 _) => Ascii.eqb c1 "_"%char && negb (Ascii.eqb c2 "_"%char)      (* _name, not __dunder__ *)
+  | _ => false
+  end.
 
 (** a public operation: method [meth] called on register [recv] (of class [rcls]) with argument registers *)
 Record op := { meth : string; recv : nat; args : list nat }.
